@@ -349,4 +349,168 @@ def C15(ctx):
                                    "unbounded": len(loomrun.loom_keys(U[0]))})
 
 
-CHECKS = {"C15": C15, "C13": C13, "C14": C14, "C10": C10, "C11": C11, "C01": C01, "C04": C04, "C05": C05, "C07": C07, "C08": C08, "C09": C09, "C02": C02, "C03": C03}
+def checkloop_expected(ctx, grid):
+    """TLC evaluates CheckLoop.tla on the grid: {(n,m,c,d): (ran, stored)}"""
+    import re, shutil
+    work = os.path.join(ctx.work, "checkloop")
+    os.makedirs(work, exist_ok=True)
+    with open(os.path.join(work, "MCCheckLoop.tla"), "w") as f:
+        f.write("---- MODULE MCCheckLoop ----\nEXTENDS CheckLoop\nMCGrid == {" +
+                ", ".join(f"<<{n}, {m}, {c}, {d}>>" for (n, m, c, d) in sorted(grid)) + "}\n====\n")
+    r = tlc.run_tlc(work, "MCCheckLoop", os.path.join(tlc.SPECS, "CheckLoop.cfg"), workers=4, timeout=600)
+    if "Model checking completed. No error has been found." not in r["text"]:
+        open(os.path.join(work, "tlc_error.log"), "w").write(r["text"])
+        m = re.search(r"Invariant (\w+) is violated", r["text"])
+        if m:
+            ctx.violation("engine-invariant", None, {"spec": "CheckLoop", "invariant": m.group(1)}, {"log": os.path.join(work, "tlc_error.log")})
+            return {}
+        raise tlc.ToolError(f"CheckLoop failed (see {work}/tlc_error.log)")
+    ctx.add_tlc(r, "CheckLoop")
+    exp = {}
+    for m in re.finditer(r'^<<"LIM", (\d+), (\d+), (\d+), (\d+), (\d+), (\d+)>>$', r["text"], re.M):
+        n, mm, c, d, ran, stored = map(int, m.groups())
+        exp[(n, mm, c, d)] = (ran, stored)
+    return exp
+
+
+def with_region(p, t, a, b, skip=False):
+    """copy of p with stop_exploring before instruction a and explore after instruction b-1 of thread t (1-based thread)"""
+    import copy
+    q = copy.deepcopy(p)
+    th = q["threads"][t - 1]
+    if skip:
+        th.insert(a, dsl.I("skipb"))
+    else:
+        th.insert(b, dsl.I("explore"))
+        th.insert(a, dsl.I("stopx"))
+    q["name"] = (p.get("name") or "") + (f"+skip[{t}:{a}]" if skip else f"+region[{t}:{a}-{b}]")
+    return families.fix_br_skips(q, t, a, b, skip)
+
+
+def C19(ctx):
+    import pathcheck, enginecheck, random, loomrun, copy
+    ctx.assumptions += ["stop_exploring/explore/skip_branch do not change what an execution means (Nop in LoomSem): every "
+                        "iteration must still trace-validate and the result set must be a subset of the unrestricted one",
+                        "limits: expected iteration counts come from CheckLoop.tla (TLC), the needed max_branches is the "
+                        "longest recorded path"]
+    rng = random.Random(ctx.seed * 5003 + 43)
+    pool = [p for p in families.litmus(ctx.tier, ctx.seed, avoid=(families.q_mo, families.q_f16)) if len(p["threads"]) <= 3]
+    pool += families.syncmix(ctx.tier, ctx.seed)
+    pool = [p for p in pool if not (families.ops_of(p) & {"br", "yield", "await", "nwait", "park", "cvwait"})]
+    rng.shuffle(pool)
+    base = pool[: (16 if ctx.tier == "quick" else 80)]
+    U = core.run_loom(ctx, base, cfg_of=lambda p: {"iter_cap": 100000, "want_paths": True, "path_cap": 100000}, tag="unres")
+    base = [(p, u) for p, u in zip(base, U) if u["end"] == "ok"]
+    # ---------------- (a) regions
+    items, meta = [], []
+    for bi, (p, u) in enumerate(base):
+        cands = []
+        for t in range(1, len(p["threads"]) + 1):
+            n = len(p["threads"][t - 1])
+            for a in range(n):
+                for b in range(a + 1, n + 1):
+                    cands.append((t, a, b, False))
+            for a in range(n + 1):
+                cands.append((t, a, a, True))
+        rng.shuffle(cands)
+        for (t, a, b, sk) in cands[: (10 if ctx.tier == "quick" else 40)]:
+            q = with_region(p, t, a, b, sk)
+            items.append({"prog": dsl.normalize(q), "cfg": {"iter_cap": 100000, "trace_cap": 20, "want_paths": True, "path_cap": 600}})
+            meta.append((bi, "region", (t, a, b, sk)))
+        # expect_explicit_explore with explore() at each position of main
+        for a in range(0, len(p["threads"][0]) + 1, max(1, len(p["threads"][0]) // 3)):
+            q = copy.deepcopy(p)
+            q["threads"][0].insert(a, dsl.I("explore"))
+            q["name"] = (p.get("name") or "") + f"+explicit[{a}]"
+            items.append({"prog": dsl.normalize(q), "cfg": {"iter_cap": 100000, "trace_cap": 20, "want_paths": True, "path_cap": 600,
+                                                            "expect_explicit_explore": True}})
+            meta.append((bi, "explicit", a))
+    R = loomrun.run_items(os.path.join(ctx.work, "regions"), items, jobs=ctx.jobs, tag="regions")
+    nontriv = 0
+    runs = []
+    for j, ((bi, kind, info), r) in enumerate(zip(meta, R)):
+        p, u = base[bi]
+        q = items[j]["prog"]
+        if r["end"] != "ok":
+            ctx.violation("region-run-failed", q, {"end": r["end"], "msg": r["msg"][:80]}, {"kind": kind, "info": info})
+            continue
+        ku, kr = loomrun.loom_keys(u), loomrun.loom_keys(r)
+        for w in sorted(kr - ku):
+            ctx.violation("region-not-subset", q, {"outcome": w}, {"kind": kind, "info": info})
+        if kind == "explicit" and info == 0 and kr != ku:
+            ctx.violation("explicit-explore-at-start-differs", q, {"missing": sorted(ku - kr)[:3]}, {})
+        if len(kr) < len(ku):
+            nontriv += 1
+        if len(r["hook_events"]) < 600:
+            runs.append(({"item": j}, r["hook_events"]))
+        # independent of the spec: no entry pushed with exploring = false ever holds Pending
+        for (ph, it, pth) in r["hook_events"]:
+            if ph == "end":
+                for e in pathcheck.canon_path(pth)["br"]:
+                    if e["k"] == "S" and not e["ex"] and "Pending" in e["th"]:
+                        ctx.violation("pending-in-frozen-branch", q, {"iter": it}, {})
+                        break
+    core.validate_traces(ctx, [it["prog"] for it in items], R, label="trace_regions")
+    rej = pathcheck.validate(ctx, runs)
+    for m, info in rej:
+        ctx.violation("path-rejected", items[m["item"]]["prog"], info, {})
+    # ---------------- (b) limits
+    lim_items, lim_meta, grid = [], [], set()
+    for bi, (p, u) in enumerate(base):
+        N = u["iters"]
+        L = max(len(pathcheck.canon_path(pth)["br"]) for (ph, it, pth) in u["hook_events"] if ph == "end")
+        for mb in (L - 1, L, L + 2):
+            lim_items.append({"prog": p, "cfg": {"max_branches": mb, "iter_cap": 100000}})
+            lim_meta.append((bi, "max_branches", mb, L))
+        nthreads = len(p["threads"])
+        for mt in (nthreads - 1, nthreads, 5):
+            if mt >= 1:
+                lim_items.append({"prog": p, "cfg": {"max_threads": mt, "iter_cap": 100000}})
+                lim_meta.append((bi, "max_threads", mt, nthreads))
+        if N <= 400:
+            for m_ in sorted({1, 2, max(1, N - 1), N, N + 1, N + 3}):
+                for c in (1, 2, 3, 7):
+                    grid.add((N, m_, c, 0))
+                    lim_items.append({"prog": p, "cfg": {"max_permutations": m_, "checkpoint_interval": c}})
+                    lim_meta.append((bi, "max_permutations", (N, m_, c, 0), None))
+            for c in (1, 2, 5):
+                grid.add((N, 0, c, 1))
+                lim_items.append({"prog": p, "cfg": {"max_duration_ms": 0, "checkpoint_interval": c}})
+                lim_meta.append((bi, "max_duration", (N, 0, c, 1), None))
+    exp = checkloop_expected(ctx, grid) if grid else {}
+    LR = loomrun.run_items(os.path.join(ctx.work, "limits"), lim_items, jobs=ctx.jobs, tag="limits")
+    for (bi, kind, val, ref), r in zip(lim_meta, LR):
+        p, u = base[bi]
+        if kind == "max_branches":
+            if val < ref:
+                if r["end"] != "branches":
+                    ctx.violation("max-branches-not-reported", p, {"max_branches": val, "need": ref, "end": r["end"]}, {"msg": r["msg"]})
+            elif r["end"] != "ok" or loomrun.loom_keys(r) != loomrun.loom_keys(u) or r["iters"] != u["iters"]:
+                ctx.violation("max-branches-changes-run", p, {"max_branches": val, "need": ref, "end": r["end"], "iters": r["iters"]}, {"msg": r["msg"]})
+        elif kind == "max_threads":
+            if val < ref:
+                if r["end"] in ("ok", "hang") or r["end"].startswith("abort"):
+                    ctx.violation("max-threads-not-reported", p, {"max_threads": val, "threads": ref, "end": r["end"]}, {"msg": r["msg"]})
+                ctx.cov.setdefault("max_threads_messages", [])
+                if r["msg"] not in ctx.cov["max_threads_messages"]:
+                    ctx.cov["max_threads_messages"].append(r["msg"])
+            elif r["end"] != "ok" or loomrun.loom_keys(r) != loomrun.loom_keys(u):
+                ctx.violation("max-threads-changes-run", p, {"max_threads": val, "end": r["end"]}, {"msg": r["msg"]})
+        else:
+            if val not in exp:
+                continue
+            if r["end"] != "ok" or r["iters"] != exp[val][0]:
+                ctx.violation("limit-arithmetic", p, {"kind": kind, "N_m_c_d": list(val), "expected_iterations": exp[val][0],
+                                                      "ran": r["iters"], "end": r["end"]}, {"msg": r["msg"]})
+    enginecheck.run_engine(ctx, ["ExploreMC_hash_b99.cfg", "ExploreMC_hash_b2.cfg"])
+    ctx.cov["programs"] += len(items) + len(lim_items)
+    ctx.cov["evaluations"] += len(items) + len(lim_items)
+    ctx.cov["distinct_nontrivial"] += nontriv
+    ctx.cov["limit_runs"] = len(lim_items)
+    ctx.cov["rule"] = "non-trivial = region/skip/explicit placements whose result set is strictly smaller than the unrestricted one"
+    if items:
+        ctx.cov["samples"].append({"program": dsl.pretty(items[0]["prog"]), "unrestricted_outcomes": len(loomrun.loom_keys(base[meta[0][0]][1])),
+                                   "restricted_outcomes": len(loomrun.loom_keys(R[0]))})
+
+
+CHECKS = {"C19": C19, "C15": C15, "C13": C13, "C14": C14, "C10": C10, "C11": C11, "C01": C01, "C04": C04, "C05": C05, "C07": C07, "C08": C08, "C09": C09, "C02": C02, "C03": C03}
